@@ -10,8 +10,8 @@ HEADER = "From Coq Require Import ZArith List.\nFrom TV Require Import Common.Ha
 CASE_T = "C02.Corr.case"
 PROPS = ["C02/Props.v"]
 DRIVER = "c02_driver.py"
-CLAUSE = {1: "outcome-class", 2: "called-without-change", 3: "called-for-rejected-or-read", 4: "change-not-notified",
-          5: "stored-value", 6: "old-new-untruthful", 7: "mechanisms-disagree", 8: "exception-routing"}
+CLAUSE = {2: "called-without-change", 3: "called-for-rejected-or-read", 4: "change-not-notified",
+          5: "assignment-undone", 6: "old-new-untruthful", 7: "mechanisms-disagree"}
 NPOOL, REJ, ALIAS = 14, 9, 10
 POOL_NAMES = ["Eq(1)#a", "Eq(1)#b", "Eq(2)", "nan#a", "nan#b", "EqRaises", "None", "[1]#a", "[1]#b", "rejected", "converted-to-Eq(1)#a",
               "Incoherent", "0", "0.0"]
